@@ -217,3 +217,67 @@ package kv
 //@ ensures inmap(swt.waiters, key) && inmap(swt.waiters[key], sw.id) && swt.waiters[key][sw.id] == sw
 //@ ensures forall k string, i sequenceWaiterID :: old(inmap(swt.waiters, k) && inmap(swt.waiters[k], i)) ==> inmap(swt.waiters, k) && inmap(swt.waiters[k], i) && swt.waiters[k][i] == old(swt.waiters[k][i])
 //@ modifies swt.idGen.v, mapof(swt.waiters), fields(map[server/kv.sequenceWaiterID]*server/kv.sequenceWaiter)
+
+// ---------------------------------------------------------------- range deletes (C15, C12)
+
+// A range-scan iterator as a ghost count of the entries still to come.
+//@ func KeyValueIterator.Valid
+//@ trusted
+//@ pure
+//@ ensures result <==> ghost(remaining, recv) > 0
+
+//@ func KeyValueIterator.Next
+//@ trusted
+//@ modifies ghost(remaining, recv)
+//@ ensures old(ghost(remaining, recv)) > 0 ==> ghost(remaining, recv) == old(ghost(remaining, recv)) - 1
+//@ ensures old(ghost(remaining, recv)) <= 0 ==> ghost(remaining, recv) == old(ghost(remaining, recv))
+
+//@ func KeyValueIterator.Key
+//@ trusted
+//@ pure
+//@ nondet
+
+//@ func KeyValueIterator.Value
+//@ trusted
+//@ pure
+//@ nondet
+
+//@ func KeyValueIterator.Close
+//@ trusted
+//@ modifies nothing
+
+//@ func WriteBatch.RangeScan(recv, lowerBound, upperBound) (it, err)
+//@ trusted
+//@ modifies nothing
+//@ ensures err == nil ==> it != nil && fresh(it) && ghost(remaining, it) >= 0
+
+//@ func WriteBatch.DeleteRange
+//@ trusted
+//@ modifies ghset(present, recv)
+
+//@ func UpdateOperationCallback.OnDeleteWithEntry(recv, batch, key, value) (err)
+//@ trusted
+//@ modifies ghset(present, batch), ghost(deleteCallbacks, recv)
+//@ ensures ghost(deleteCallbacks, recv) == old(ghost(deleteCallbacks, recv)) + 1
+
+//@ func Deserialize
+//@ trusted
+//@ modifies fields(proto.StorageEntry)
+
+//@ func notifications.DeletedRange
+//@ trusted
+//@ modifies fields(notifications), fields(proto.NotificationBatch), mapof(n.batch.Notifications)
+
+// applyDeleteRange: the delete callback (which removes secondary-index entries and
+// session shadows) runs once for every record in the range — the scan stops early only
+// on an error — whichever way the records themselves are then deleted.
+//
+//@ func db.applyDeleteRange(d, batch, notifications, delReq, updateOperationCallback) (res, err)
+//@ property C15 C12
+//@ ghost n int
+//@ requires batch != nil && delReq != nil && updateOperationCallback != nil && d.log != nil && n >= 0
+//@ assume at call RangeScan#0: err == nil ==> ghost(remaining, it) == n because "n names the number of records in the range (ghost parameter)"
+//@ loop 0 invariant it != nil && ghost(remaining, it) >= 0 && ghost(deleteCallbacks, updateOperationCallback) + ghost(remaining, it) == old(ghost(deleteCallbacks, updateOperationCallback)) + n
+//@ loop 1 invariant ghost(deleteCallbacks, updateOperationCallback) == old(ghost(deleteCallbacks, updateOperationCallback)) + n
+//@ ensures err == nil ==> ghost(deleteCallbacks, updateOperationCallback) == old(ghost(deleteCallbacks, updateOperationCallback)) + n
+//@ modifies *
